@@ -126,6 +126,10 @@ class Ctx:
                 fcntl.flock(lk, fcntl.LOCK_EX)
                 sh(["rsync", "-a", "--delete", "--exclude", "/Gen/", "--include", "*/", "--include", "*.v",
                     "--exclude", "*", COQ_SHARED + "/", COQ + "/"], timeout=300)
+        # one check of a property per tree at a time: a second one waits (it would wipe the scratch directory)
+        os.makedirs(WORK, exist_ok=True)
+        self._runlock = open(os.path.join(WORK, ".run-%s.lock" % os.path.basename(self.work)), "w")
+        fcntl.flock(self._runlock, fcntl.LOCK_EX)
         shutil.rmtree(self.work, ignore_errors=True)
         os.makedirs(self.work, exist_ok=True)
         # evidence is written to /verif/evidence unless a run against a scratch worktree redirects it
@@ -228,13 +232,35 @@ class Ctx:
         if hits:
             self.broken.append(("proof: forbidden command in the development", "\n".join(hits[:20])))
         ok_all = True
-        for pf in [prop_file] + list(more):
-            ok_all = self._proofs_one(pf, allowed_axioms) and ok_all
+        more = list(more)
+        # the source tie of the hand-written model (bin/pin-source), when the property has one
+        src_pin = "Properties/%sSource.v" % self.pid
+        if os.path.exists(os.path.join(COQ, src_pin)) and src_pin not in more:
+            more.append(src_pin)
+        for pf in [prop_file] + more:
+            ok = self._proofs_one(pf, allowed_axioms)
+            if not ok and pf == src_pin:
+                self._explain_source_pin()
+            ok_all = ok and ok_all
         if not ok_all:
             self.discharged = 0
         elif self.tier == "thorough" and os.environ.get("VERIF_COQCHK", "1") == "1":
             self.coqchk([prop_file] + list(more))
         return ok_all
+
+    def _explain_source_pin(self):
+        """name the functions whose statements differ from the pinned ones"""
+        try:
+            out = self.coq_eval("source_diff", "From SX Require Import Model.%sSourceShape.\n"
+                                "Definition D := Eval vm_compute in shape_diff.\nPrint D." % self.pid, timeout=300)
+            names = re.findall(r'"([^"]+)"', out)
+            if names:
+                what, detail = self.broken[-1]
+                self.broken[-1] = (what + ": the statements of %s differ from the ones the model was validated against" %
+                                   ", ".join(n.replace("__", ".").replace("_", "/", 0) for n in names[:8]), detail)
+                self.source_diff = names
+        except Exception:
+            pass
 
     def _proofs_one(self, prop_file, allowed_axioms):
         src_path = os.path.join(COQ, prop_file)
